@@ -5,6 +5,7 @@ package main
 import (
 	"fmt"
 	"go/token"
+	"go/types"
 	"strings"
 
 	"golang.org/x/tools/go/ssa"
@@ -15,6 +16,7 @@ func init() {
 C15-a every table returned lists only partitions decoded from CRC-valid data: the CRC equality edges dominate every success return of the functions that compute a CRC, the checksummed buffer is the decoded one and the header CRC range covers the decoded header bytes (same rules as C09-f).
 C15-b every device-derived value (decoded by encoding/binary or loaded from a byte buffer, propagated through arithmetic, fields and calls) that reaches a make length, a divisor, a slice bound, an index, or the step of a slice-shrinking loop is guarded: a dominating comparison bounds it on the edge taken, all its device-derived operands are guarded, it is loaded from a field validated where it is stored, or its type and constant operands bound it below 2^24 (16 MiB).
 C15-c a loop whose every exit depends on a device read it contains cannot return to that read after a non-nil error (io.EOF included) without having received bytes (no retry-forever on a short device).
+C15-d a pointer returned by an in-package decoder together with an error (the decoder returns nil for it on its error paths) is dereferenced only where the error is known to be nil: every field access through it is dominated by the nil edge of the error test.
 Untainted bounds cannot depend on the device contents and are exercised by the valid-image tests. Does not decide termination or absence of panics in general.`)
 }
 
@@ -45,6 +47,9 @@ func runC15(w *World, r *Report) {
 	if nloops == 0 {
 		r.Ok("C15-c", "partition readers", "no loop whose only exits depend on a device read", "partition", fmt.Sprintf("%d functions", len(fns)))
 	}
+	nd := nilAfterError(w, r, "C15-d", fns)
+	r.Extra["decoder_results_examined"] = nd
+	r.Floor("C15-d", nd, 5)
 	r.Extra["functions_in_scope"] = len(fns)
 	r.Extra["tainted_values"] = len(b.tv)
 	var tf []string
@@ -273,6 +278,81 @@ func readLoopsProgress(w *World, r *Report, rule string, fns []*ssa.Function) in
 			}
 			r.Check(!back, rule, fnName(fn), "read loop stops on an error without progress: "+name+" #"+ordinal(fn, c), w.relFile(c.Pos()), "every exit of the loop depends on this read",
 				"every exit of this loop depends on the results of "+name+", and after a non-nil error (io.EOF included) the loop can come back to the read without having received a byte: on a device shorter than the (possibly corrupted) length asks for, it reads (0, EOF) forever")
+		}
+	}
+	return n
+}
+
+// nilAfterError (C15-d / C18-f): p, err := g(...) where the in-module g returns a nil pointer on (some of) its error
+// paths: every dereference of p (field address, element address, load, store) must be dominated by the edge on which
+// err is nil. Returns the number of call results examined.
+func nilAfterError(w *World, r *Report, rule string, fns []*ssa.Function) int {
+	n := 0
+	for _, fn := range fns {
+		if fn.Blocks == nil {
+			continue
+		}
+		for _, cc := range calls(fn, false, func(c ssa.CallInstruction) bool {
+			g := c.Common().StaticCallee()
+			return g != nil && g.Blocks != nil && w.inModule(g) && errResultIndex(g.Signature) > 0
+		}) {
+			c, ok := cc.(*ssa.Call)
+			if !ok {
+				continue
+			}
+			g := c.Call.StaticCallee()
+			ei := errResultIndex(g.Signature)
+			for i := 0; i < g.Signature.Results().Len(); i++ {
+				if i == ei {
+					continue
+				}
+				if _, isPtr := g.Signature.Results().At(i).Type().Underlying().(*types.Pointer); !isPtr {
+					continue
+				}
+				// g returns nil at position i on an error path
+				nilOnErr := false
+				for _, ret := range returnsOf(g) {
+					if i < len(ret.Results) && isNilConst(ret.Results[i]) && classifyReturn(ret) != RetSuccess {
+						nilOnErr = true
+					}
+				}
+				if !nilOnErr {
+					continue
+				}
+				var p ssa.Value
+				for _, ref := range *c.Referrers() {
+					if ex, ok := ref.(*ssa.Extract); ok && ex.Index == i {
+						p = ex
+					}
+				}
+				if p == nil {
+					continue
+				}
+				iff, nilIdx := errNilEdge(fn, c)
+				n++
+				bad := ""
+				for _, ref := range *p.Referrers() {
+					deref := false
+					switch x := ref.(type) {
+					case *ssa.FieldAddr:
+						deref = x.X == p
+					case *ssa.IndexAddr:
+						deref = x.X == p
+					case *ssa.UnOp:
+						deref = x.Op == token.MUL && x.X == p
+					case *ssa.Store:
+						deref = x.Addr == p
+					}
+					if !deref {
+						continue
+					}
+					if iff == nil || !edgeDominates(iff.Block(), nilIdx, ref.Block()) {
+						bad = w.relFile(instrPos(ref))
+					}
+				}
+				r.Check(bad == "", rule, fnName(fn), "result of "+g.Name()+" used only when its error is nil #"+ordinal(fn, c), w.relFile(c.Pos()), "",
+					"the pointer returned by "+fnName(g)+" (nil on its error paths) is dereferenced at "+bad+" on a path where the error may be non-nil: a record the decoder rejects makes the reader panic instead of returning an error")
+			}
 		}
 	}
 	return n
